@@ -6,7 +6,7 @@ import os
 import re
 import shutil
 
-SUM = "/tmp/seedlogs/summary.txt"
+SUM = os.environ.get("SEED_SUMMARY", "/tmp/seedlogs/summary.txt")
 # round 2: the author's summary was read before the first evaluation and the check was widened beforehand
 # (so "first run" would overstate what the check as it stood could do)
 PRE = set("C03-6 C06-5 C07-5 C08-4 C08-5 C08-6 C09-4 C09-5 C11-4 C11-5 C11-6 C12-5 C13-5 C14-4 C14-5 C15-4 C15-5 C15-6 "
@@ -27,7 +27,8 @@ for line in open(SUM):
     e["demo_clean"], e["demo_patched"] = c0, c1
     e["runs"].append({"after_strengthening": bool(rerun), "checks": checks})
 for (prop, k), e in sorted(rows.items()):
-    src = (f"/tmp/seed/{prop}/_seed/{k}" if int(k) <= 3 else
+    src = (f"/tmp/seed9/{prop}/_seed/{int(k) - 15}" if int(k) >= 16 else
+           f"/tmp/seed/{prop}/_seed/{k}" if int(k) <= 3 else
            f"/tmp/seed2/{prop}/_seed/{int(k) - 3}" if int(k) <= 6 else
            f"/tmp/seed4/{prop}/_seed/{int(k) - 6}" if int(k) <= 9 else
            f"/tmp/seed5/{prop}/_seed/{int(k) - 9}" if int(k) <= 12 else
